@@ -635,6 +635,10 @@ def can_fuse_primitive_ops(
     primitive_op1: PrimitiveOperation, primitive_op2: PrimitiveOperation
 ) -> bool:
     if is_fuse_candidate(primitive_op1) and is_fuse_candidate(primitive_op2):
+        # fuse() composes the key functions through a single block key, so the
+        # successor must read exactly one block (not a list or iterator of blocks)
+        if any(n != 1 for n in primitive_op2.pipeline.config.num_input_blocks):
+            return False
         return primitive_op1.num_tasks == primitive_op2.num_tasks
     return False
 
